@@ -56,9 +56,11 @@ def run(R, env):
                 rel = cmp_rel(atom[1], lambda x: True, lim)
                 if rel is not None:
                     guards.append((bi, atom, rel))
-        R.ob("C17.R1", "loop-guard", len(guards) == 1 and guards[0][2] == {"<"}, "limit comparisons: %s; expected exactly `taken < limit.unwrap_or(u32::MAX)`" % [sorted(g[2]) for g in guards], fn=pk)
+        R.ob("C17.R1", "loop-guard", len(guards) == 1 and guards[0][2] in ({"<"}, {">", "="}), "limit comparisons: %s; expected exactly `taken < limit.unwrap_or(u32::MAX)` (or its complement with the branches exchanged)" % [sorted(g[2]) for g in guards], fn=pk)
         if len(guards) == 1:
-            gbi, gatom, _ = guards[0]
+            gbi, gatom, grel = guards[0]
+            if grel == {">", "="}:
+                gatom = (gatom[0], gatom[1], {True: gatom[2][False], False: gatom[2][True]})
             # continue-on-true leads to next(); false leaves the loop (no next reachable without coming back through the guard)
             nexts = [bi for bi, t, a in call_sites(c, lambda nm: nm == "std::iter::Iterator::next")]
             into = all(any(nb in b.reachable(c.removed, removed_blocks=frozenset([gbi]), start=tg) for nb in nexts) for tg in gatom[2][True])
